@@ -119,6 +119,13 @@ func (c *evalCtx) def(s *Sx) tv {
 		return fmap(c.h(a[1]), func(x any) any { return linV(a[2], x) })
 	case "flatMap", "liftM", "m.flatMap":
 		return bind(c.h(a[1]), func(v any) tv { return c.kf(a[2], v) })
+	case "flattenS", "flattenSS":
+		// Flatten(Successful(D)) over fp.Try is D
+		return c.def(a[1])
+	case "liftMF":
+		return bind(c.def(a[1]), func(v any) tv { return c.kf(a[2], v) })
+	case "liftMM":
+		return bind(c.h(a[1]), func(v any) tv { return bind(c.kf(a[2], v), func(x any) tv { return c.kf(a[3], x) }) })
 	case "map2":
 		return bind(c.h(a[1]), func(x any) tv { return fmap(c.h(a[2]), func(y any) any { return f2V(a[3], x, y) }) })
 	case "zip":
